@@ -18,7 +18,7 @@ IsContext(t)   == t.k = "named" /\ t.p = "Scontext" /\ t.n = "Context"
 
 \* template/var.go Nillable(): can the variable hold nil?  (var.go also answers true for arrays, which cannot: the
 \* contract leaves arrays open -- "any" -- instead of copying that quirk.)
-NillableNamed == {"I", "LI", "GI", "LGI", "RW", "LG2", "Reader", "Writer", "ReadWriter", "Context", "Stringer", "Locker", "LS"}
+NillableNamed == {"I", "LI", "GI", "LGI", "RW", "LG2", "TI", "Reader", "Writer", "ReadWriter", "Context", "Stringer", "Locker", "LS"}
 ExpNillable(t) == CASE t.k \in {"ptr", "map", "iface", "func", "chan", "slice", "tp"} -> "true"
                     [] t.k = "array" -> "any"
                     [] t.k = "basic" -> IF t.n \in {"error", "any"} THEN "true" ELSE "false"
@@ -42,6 +42,7 @@ ExpMethod(m) ==
    results         |-> [i \in 1..Len(m.rs) |-> ExpResult(m, i)]]
 
 \* expectation for a target: each method of the method set exactly once (order free), the type parameters in order
+\* (several interfaces may be rendered into one file: the expectation is per interface, never inherited from a neighbour)
 ExpData(methods, tps) ==
   [methods |-> [i \in 1..Len(methods) |-> ExpMethod(methods[i])],
    tparams |-> [i \in 1..Len(tps) |-> tps[i].n]]
